@@ -274,6 +274,7 @@ def execute(spec: dict, choices: Any = (), fault: Any = None,
         rec['step_kinds'] = S.step_kinds
         rec['dec_at_step'] = S.dec_at_step
     rec['fault_fired'] = S.fault_fired
+    rec['procs'] = sorted({t.proc for t in S.T.values()})
     return rec
 
 
@@ -297,12 +298,12 @@ def run_item(item: tuple) -> dict:
     if not _JUDGES:
         _import_judges()
     fps: set = set()
-    rec = execute(spec, choices, fault, fps=fps,
+    rec = execute(spec, choices, fault, fps=fps, monitors=_mon(spec),
                   record_steps=(fault is None and spec.get('want_steps')))
     if rec['sched_error'] is not None and rec['sched_error'][0] == 'timeout':
         # real-time watchdog: only a reproducible stall is a harness bug
         fps = set()
-        rec = execute(spec, choices, fault, fps=fps,
+        rec = execute(spec, choices, fault, fps=fps, monitors=_mon(spec),
                       record_steps=(fault is None and spec.get('want_steps')))
     if rec['sched_error'] is not None:
         # re-run once: a divergence must be reproducible to be a harness bug
@@ -330,6 +331,7 @@ def run_item(item: tuple) -> dict:
             out['boot_steps'] = rec['boot_steps']
             out['total_steps'] = rec['steps']
             out['dec_at_step'] = rec['dec_at_step']
+            out['procs'] = rec['procs']
             out['step_kinds'] = rec['step_kinds']
     return out
 
@@ -412,14 +414,21 @@ def explore(ctx: Ctx, specs: list[dict], judge: str, bound: int,
 def replay_item(spec: dict, choices: list, fault: Any, judge: str) -> list:
     if not _JUDGES:
         _import_judges()
-    rec = execute(spec, choices, fault)
+    rec = execute(spec, choices, fault, monitors=_mon(spec))
     if rec['sched_error'] is not None:
         raise HarnessError(f'replay diverged: {rec["sched_error"]}')
     v1 = _JUDGES[judge](spec, rec, fault)
-    rec2 = execute(spec, choices, fault, expect=rec['trace'])
+    rec2 = execute(spec, choices, fault, expect=rec["trace"], monitors=_mon(spec))
     if rec2['sched_error'] is not None:
         raise HarnessError(f'second replay diverged: {rec2["sched_error"]}')
     v2 = _JUDGES[judge](spec, rec2, fault)
     if sorted(s for s, _ in v1) != sorted(s for s, _ in v2):
         raise HarnessError(f'non-deterministic verdicts: {v1} vs {v2}')
     return v1
+
+
+def _mon(spec: dict) -> list:
+    if spec.get('monitor') == 'c15':
+        from vf import judges
+        return [judges.c15_monitor]
+    return []
